@@ -16,6 +16,8 @@ From BNP Require Import Model.C13.
 From BNP Require Import Proofs.C13.
 From BNP Require Import Corr.C13.
 From BNP Require Import Proofs.C13_corr.
+From BNP Require Import Gen.C13.
+From BNP Require Import Bridge.C13.
 Import ListNotations.
 Open Scope Z_scope.
 
@@ -163,6 +165,39 @@ Theorem C13_model_agrees_implies_property_partial :
   forall c : case, in_domain c = true -> window_handled c -> model_ok c = true -> spec_ok c = true.
 Proof. exact model_ok_implies_spec_ok. Qed.
 Print Assumptions C13_model_agrees_implies_property_partial.
+
+(* Source tie: the arithmetic regenerated from /repo on this run (Gen/C13.v, written by translate/run.py through
+   translate/gen_c13.py) is the arithmetic the theorems above are about:
+   - the column-slice bound `(-window_size + 1) or None` at all four sites (rollable.py rolling_window, kmers.py
+     convolution, position_weight_matrix.py get_motif_scores, util/__init__.py rolling_window_function) is `stop_of`,
+     the bound the model and the correspondence use;
+   - KmerEncoder's weights `alphabet_size ** arange(k)` (and that the code is `data.dot(weights)`), the two dot
+     products of KmerEncoding.encode, the `alphabet_size == 4` tests of get_kmers and to_string, the shift/mask
+     and div/mod digits of to_string, the number of labels `alphabet_size ** k`, the minimizer window arithmetic
+     and the bounds of the PWM accumulation pass are the named helpers of Model/C13.v;
+   - and the model's definitions are built from exactly those helpers. *)
+Theorem C13_source_tie :
+  (forall w, gen_stop_rollable w = stop_of w /\ gen_stop_convolution w = stop_of w
+             /\ gen_stop_motif w = stop_of w /\ gen_stop_util w = stop_of w)
+  /\ (forall n k j, gen_kmer_weight n k j = m_kmer_weight n j /\ gen_encode_weight_str n k j = m_kmer_weight n j
+                    /\ gen_encode_weight_list n k j = m_kmer_weight n j)
+  /\ gen_kmer_call_is_dot = true
+  /\ (forall n, gen_get_kmers_packed_test n = m_packed_test n /\ gen_to_string_packed_test n = m_packed_test n)
+  /\ (forall n h k j, gen_to_string_digit4 h k j = m_digit4 h j /\ gen_to_string_digit n h k j = m_digit n h j)
+  /\ (forall n k, gen_n_labels n k = m_n_labels n k)
+  /\ (forall W k, gen_minimizer_n_kmers W k = m_min_n_kmers W k /\ gen_minimizer_window W k = m_min_window W k
+                  /\ m_min_window (m_min_n_kmers W k) k = W)
+  /\ (forall size offset, gen_pwm_acc_stop size offset = m_pwm_acc_len size offset /\ gen_pwm_seq_start size offset = offset)
+  /\ (forall n k win, powers n k = map (m_kmer_weight n) (arange k)
+                      /\ hash_generic n k win = dot win (map (m_kmer_weight n) (arange k))
+                      /\ encode_kmer n k win = dot win (map (m_kmer_weight n) (arange k)))
+  /\ (forall stopf n k rows, get_kmers_with stopf n k rows =
+         if m_packed_test n then rewrap_trim (stopf k) 0 (map len rows) (kmers_packed k (concat rows))
+         else rolling_with stopf (hash_generic n k) k rows)
+  /\ (forall n k h, decode_kmer n k h = if m_packed_test n then map (m_digit4 h) (arange k) else map (m_digit n h) (arange k))
+  /\ (forall alpha n k, labels alpha n k = map (to_string alpha n k) (arange (m_n_labels n k))).
+Proof. exact source_tie. Qed.
+Print Assumptions C13_source_tie.
 
 (* ---- non-vacuity: concrete ragged inputs with an empty row, a row of length w-1, w, w+1 and a short
         last row meet the hypotheses, and the executable model really computes the per-row values *)
